@@ -18,6 +18,51 @@ def validate(norm_lines, work, tag):
         raise RuntimeError(r['error'])
     return r['viol']
 
+def generic_selftest(work, rnd, results):
+    import subprocess, suite_trace
+    d = lib.build_suite()
+    raw = os.path.join(work, 'g.raw'); norm = os.path.join(work, 'g.ndjson')
+    subprocess.run([os.path.join(d, 'self_test_g')], env=dict(os.environ, VERIF_GTRACE=raw), stdout=subprocess.DEVNULL, stderr=subprocess.DEVNULL)
+    suite_trace.normalize(raw, norm)
+    lines = [json.loads(l) for l in open(norm)]
+    def val(mod, tag):
+        path = os.path.join(work, tag + '.ndjson')
+        open(path, 'w').write('\n'.join(json.dumps(x, separators=(',', ':')) for x in mod) + '\n')
+        r = lib.validate_generic('TraceGeneric.tla', 'TraceGeneric.cfg', path, work, tag)
+        if 'error' in r:
+            raise RuntimeError(r['error'])
+        return r['viol']
+    if val(lines, 'g0'):
+        raise RuntimeError('the unmodified suite trace is not accepted')
+    finds = [i for i, e in enumerate(lines) if e['e'] == 'find' and len(e['cands']) >= 2]
+    handled = [i for i, e in enumerate(lines) if e['e'] == 'handled']
+    dtors = [i for i, e in enumerate(lines) if e['e'] == 'dtor']
+    links = [i for i, e in enumerate(lines) if e['e'] == 'link' and e['hi'] > 0]
+    muts = []
+    for i in rnd.sample(finds, min(3, len(finds))):
+        muts.append(('other-candidate-chosen', i, lambda e: e.__setitem__('f', [c[0] for c in e['cands'] if c[0] != e['f']][0])))
+    for i in rnd.sample(handled, min(3, len(handled))):
+        muts.append(('count+1', i, lambda e: e.__setitem__('v', e['v'] + 1)))
+    for i in rnd.sample(handled, min(2, len(handled))):
+        muts.append(('saturation-flipped', i, lambda e: e.__setitem__('l', 0 if e['l'] else 99)))
+    for i in rnd.sample(dtors, min(3, len(dtors))):
+        muts.append(('unfulfilled-verdict-flipped', i, lambda e: e.__setitem__('v', 1 - e['v'])))
+    ok = True
+    for n, (name, idx, f) in enumerate(muts):
+        mod = json.loads(json.dumps(lines)); f(mod[idx])
+        v = val(mod, 'gm%d' % n)
+        hit = any(idx + 1 <= x['line'] <= idx + 4 for x in v)
+        results.append(dict(mutation='generic:' + name, line=idx + 1, rejected=hit)); ok &= hit
+    # dropping a link event: the expectation is unknown afterwards -> tolerated by design (untracked); dropping a handled event must show
+    for n, idx in enumerate(rnd.sample(handled, min(3, len(handled)))):
+        mod = lines[:idx] + lines[idx + 1:]
+        v = val(mod, 'gd%d' % n)
+        # visible when the expectation is counted again or its end-of-life verdict is evaluated
+        results.append(dict(mutation='generic:handled-event-dropped', line=idx + 1, rejected=bool(v)))
+    dropped = [r for r in results if r['mutation'] == 'generic:handled-event-dropped']
+    ok &= sum(1 for r in dropped if r['rejected']) >= 1
+    return ok
+
 def main(seed=1):
     rnd = random.Random(seed)
     work = os.path.join(lib.BUILD, 'work-selftest-%d' % os.getpid())
@@ -62,14 +107,20 @@ def main(seed=1):
         hit = any(x['line'] == idx + 1 for x in v)
         results.append(dict(mutation=name, line=idx + 1, rejected=hit))
         ok &= hit
-    for n, idx in enumerate(rnd.sample(calls, min(4, len(calls)))):
+    # dropping an accepted call that changed the projected state (satisfied / saturated flags) must show at the next event
+    changing = [i for i in calls if i > 0 and lines[i - 1].get('e') != 'Seg' and lines[i].get('fl') != lines[i - 1].get('fl')
+                and i + 1 < len(lines) and 'fl' in lines[i + 1]]
+    for n, idx in enumerate(rnd.sample(changing, min(4, len(changing)))):
         mod = lines[:idx] + lines[idx + 1:]
         v = validate(mod, work, 'd%d' % n)
         hit = any(x['line'] >= idx + 1 for x in v)
-        # dropping an accepted call is only observable if somebody looks at the count later; accept "observable or at end of segment"
         results.append(dict(mutation='event-dropped', line=idx + 1, rejected=hit))
-    dropped = [r for r in results if r['mutation'] == 'event-dropped']
-    ok &= sum(1 for r in dropped if r['rejected']) >= max(1, len(dropped) // 2)
+        ok &= hit
+    # ---- the generic binding (repository's own tests -> Generic.tla): tampered hook traces must be rejected
+    try:
+        ok &= generic_selftest(work, rnd, results)
+    except Exception as e:
+        print('SELFTEST-ERROR generic binding:', e); ok = False
     shutil.rmtree(work, ignore_errors=True)
     for r in results:
         print('SELFTEST', r)
